@@ -77,9 +77,10 @@ def _observe_format(env):
 
 def _make(spec):
     Env = _Env()
+    kw = {'offset': spec['offset']} if spec.get('offset') else {}
     return Env(copy.deepcopy(spec['levels']), copy.deepcopy(spec['times']),
                copy.deepcopy(spec['curves']), spec.get('release_node'),
-               spec.get('loop_node'))
+               spec.get('loop_node'), **kw)
 
 
 # ---------------------------------------------------------------------------
@@ -221,6 +222,16 @@ def format_cases(tier, rng, names):
             curves = rng.choice(list(names) + NUM_CURVES)
         else:
             curves = _curve_variants(n, names, rng, 1)[0]
+        if rng.random() < 0.12:      # a segment's time / curve per channel
+            if isinstance(times, list) and rng.random() < 0.5:
+                i = rng.randrange(len(times))
+                times = list(times)
+                times[i] = [rng.choice(TIME_POOL) for _ in range(rng.choice([2, 3]))]
+            else:
+                curves = list(curves) if isinstance(curves, list) else [curves]
+                i = rng.randrange(len(curves))
+                curves[i] = [rng.choice(list(names) + NUM_CURVES)
+                             for _ in range(rng.choice([2, 3]))]
         rel = rng.choice([None, None, rng.randrange(n + 1)])
         loop = rng.choice([None, None, rng.randrange(n + 1)])
         cases.append({'levels': levels, 'times': times, 'curves': curves,
@@ -246,7 +257,8 @@ def run_format(rep, bad_names):
             failures.append((_size(spec), spec, obs, exp))
     failures.sort(key=lambda f: f[0])
     for _, spec, obs, exp in failures[:3]:
-        multi = any(isinstance(x, list) for x in spec['levels'])
+        multi = any(isinstance(x, list) for k in ('levels', 'times', 'curves')
+                    for x in (spec[k] if isinstance(spec[k], list) else []))
         rep.violation(
             obligation='C19.format',
             what='_envgen_format() differs from the server layout for %r'
@@ -488,7 +500,11 @@ def at_cases(tier, rng, names):
             else:
                 curves.append(rng.choice(
                     _allowed_curves(levels[i], levels[i + 1], names)))
-        cases.append({'levels': levels, 'times': times, 'curves': curves})
+        case = {'levels': levels, 'times': times, 'curves': curves}
+        if rng.random() < 0.25:
+            # the envelope starts `offset` seconds after time zero (dyadic: times stay exact)
+            case['offset'] = rng.choice([0.25, 0.5, 1.5, 2.0, 3.0])
+        cases.append(case)
     return cases
 
 
@@ -514,9 +530,11 @@ def check_at(spec, grid=48):
     crv = ref.wrapped(curves, n)
     tol = _tol(spec, crv)
 
+    off = spec.get('offset') or 0
+
     def at(t):
         try:
-            v = env._at(t)
+            v = env._at(t + off)
         except Exception as e:
             return 'raises %s: %s' % (type(e).__name__, e)
         return v
@@ -580,14 +598,17 @@ def run_at(rep, bad_names):
         per_key[key] = per_key.get(key, 0) + 1
         rep.violation(
             obligation='C19.at',
-            what='Env(%r, %r, %r)._at(%r) = %r, expected %s %r'
-                 % (spec['levels'], spec['times'], spec['curves'], t, v,
+            what='Env(%r, %r, %r%s)._at(%r) = %r, expected %s %r'
+                 % (spec['levels'], spec['times'], spec['curves'],
+                    ', offset=%r' % spec['offset'] if spec.get('offset') else '',
+                    t + (spec.get('offset') or 0), v,
                     'within' if clause == 'between' else 'the level', exp),
             input={'spec': spec, 'time': t}, observed=v, expected=exp,
             key=key, replay={'func': 'at', 'args': spec})
     rep.note('at: domains as documented -- exponential only between same '
              'sign non-zero levels, squared/cubed only between non-negative '
-             'levels, numeric curves in [-8, 8]; durations > 0; offset 0; '
+             'levels, numeric curves in [-8, 8]; durations > 0; offset 0 or one of '
+             '{0.25, 0.5, 1.5, 2, 3} (all times then shifted by it); '
              'tolerance 1e-9 (1e-5 when a cubed segment is present: the '
              'shape is defined with the exponent 0.3333333)')
     rep.bounded(
